@@ -227,7 +227,7 @@ def _loop_effects(s, env):
                 if not ((isinstance(f, ast.Name) and f.id == "isinstance") or
                         (isinstance(f, ast.Attribute) and f.attr in ("find", "startswith", "endswith"))):
                     raise Unknown("call in loop test " + ast.unparse(n))
-            if isinstance(n, ast.Name) and n.id not in targets and n.id not in env and n.id not in ("isinstance", "int", "str"):
+            if isinstance(n, ast.Name) and n.id not in targets and n.id not in env and n.id not in ("isinstance", "int", "str", "bool", "float", "list", "dict", "bytes"):
                 raise Unknown("name in loop test " + n.id)
     return _raises_in(s.body)
 
